@@ -7,6 +7,8 @@ import (
 	"math"
 	"math/big"
 	"sort"
+	"strconv"
+	"strings"
 	"testing"
 
 	"github.com/aclements/go-moremath/fit"
@@ -38,6 +40,32 @@ var basisTable = map[string]func(float64) float64{
 	"sin": math.Sin,
 	"cos": math.Cos,
 	"exp": math.Exp,
+	// more "arbitrary smooth" functions: bounded, shifted, orthogonal-polynomial-like, rational
+	"tanh": math.Tanh,
+	"x+1":  func(x float64) float64 { return x + 1 },
+	"p2":   func(x float64) float64 { return (3*x*x - 1) / 2 },
+	"rat":  func(x float64) float64 { return 1 / (1 + x*x) },
+}
+
+// basisFunc resolves a basis name; "2.5*sin" is the function 2.5 sin x (so "2.5*1" is a constant
+// term that is not the function 1).
+func basisFunc(name string) (func(float64) float64, bool) {
+	scale := 1.0
+	if i := strings.Index(name, "*"); i >= 0 {
+		v, err := strconv.ParseFloat(name[:i], 64)
+		if err != nil {
+			return nil, false
+		}
+		scale, name = v, name[i+1:]
+	}
+	f, ok := basisTable[name]
+	if !ok {
+		return nil, false
+	}
+	if scale == 1 {
+		return f, true
+	}
+	return func(x float64) float64 { return scale * f(x) }, true
 }
 
 func term(f func(float64) float64) func(xs, out []float64) {
@@ -173,7 +201,7 @@ var checkLS = ev.Register("least-squares", func(c *LSCase) ev.Outcome {
 	fs := make([]func(float64) float64, p)
 	terms := make([]func(xs, out []float64), p)
 	for j, name := range c.Basis {
-		f, ok := basisTable[name]
+		f, ok := basisFunc(name)
 		if !ok {
 			return ev.Fail("harness error: basis %q", name)
 		}
@@ -496,7 +524,13 @@ var checkLoess = ev.Register("loess", func(c *LoessCase) ev.Outcome {
 	for i, j := range idx {
 		sx[i], sy[i] = c.Xs[j], c.Ys[j]
 	}
-	fSorted := fit.LOESS(append([]float64(nil), sx...), append([]float64(nil), sy...), c.Degree, c.Span)
+	sxArg, syArg := append([]float64(nil), sx...), append([]float64(nil), sy...)
+	fSorted := fit.LOESS(sxArg, syArg, c.Degree, c.Span)
+	for i := range sx {
+		if math.Float64bits(sxArg[i]) != math.Float64bits(sx[i]) || math.Float64bits(syArg[i]) != math.Float64bits(sy[i]) {
+			return ev.Fail("LOESS modified its (already sorted) inputs: xs %v -> %v, ys %v -> %v", sx, sxArg, sy, syArg)
+		}
+	}
 	fs := make([]func(float64) float64, c.Degree+1)
 	for k := range fs {
 		k := k
@@ -661,6 +695,21 @@ func TestLeastSquares(t *testing.T) {
 	ev.Rule(rule)
 	ev.Rapid(t, "c15-ls", 6000, 100000, func(rt *rapid.T) {
 		basis := rapid.SampledFrom([][]string{{"1", "x"}, {"1", "x", "x2"}, {"1", "sin", "cos"}, {"1", "x", "exp"}, {"1", "x", "x2", "x3"}, {"x", "sin"}, {"1"}, {"1", "x", "x2", "x3", "x4"}}).Draw(rt, "basis")
+		basis = append([]string(nil), basis...)
+		switch rapid.IntRange(0, 3).Draw(rt, "basisVariant") {
+		case 1:
+			// every term scaled by a constant of its own (a constant term that is not the
+			// function 1, a basis that is not normalised)
+			for j := range basis {
+				if k := rapid.SampledFrom([]string{"2.5", "-1", "0.5", "4", "-0.25", "1"}).Draw(rt, "termScale"); k != "1" {
+					basis[j] = k + "*" + basis[j]
+				}
+			}
+		case 2:
+			// other functions, and the terms in another order (the constant not first)
+			basis = append([]string(nil), rapid.SampledFrom([][]string{{"x", "1"}, {"tanh", "1", "x2"}, {"x+1", "x2"}, {"1", "x", "p2"}, {"rat", "1", "x"},
+				{"sin", "3*1"}, {"2*1", "x", "sin"}, {"x", "x2", "0.5*1"}, {"p2", "x", "1", "x3"}, {"cos", "rat"}}).Draw(rt, "basis2")...)
+		}
 		n := rapid.IntRange(len(basis)+1, 40).Draw(rt, "n")
 		c := &LSCase{Xs: drawXs(rt, n), Basis: basis, W: drawWeights(rt, n)}
 		for range c.Xs {
